@@ -4,6 +4,8 @@ import (
 	"fmt"
 	"sort"
 	"strings"
+
+	"golang.org/x/tools/go/ssa"
 )
 
 var lockInfoCache = map[*Prog]*LockInfo{}
@@ -145,6 +147,93 @@ func runPoolFields(c *Ctx, prop, rule string) {
 		c.ok(prop, rule, "WorkerPool fields", "", "never rewritten after construction")
 		return
 	}
+	hasWriterClass := func(st lockState) bool {
+		for id := range writerLocks {
+			for h := range st {
+				if h.Class == id.Class {
+					return true
+				}
+			}
+		}
+		return false
+	}
+	// heldAtEntry: every call site of fn in the repository either has an unshared (fresh) receiver, or is
+	// executed with the writers' lock held, or sits in a function for which the same holds.
+	var heldAtEntry func(fn *ssa.Function, d int) bool
+	heldAtEntry = func(fn *ssa.Function, d int) bool {
+		sites := p.callers[fn]
+		if len(sites) == 0 || d > 4 {
+			return false
+		}
+		for _, cs := range sites {
+			args := cs.Instr.Common().Args
+			if len(args) > 0 && isFresh(args[0]) {
+				continue
+			}
+			if hasWriterClass(li.stateAt(cs.Instr)) {
+				continue
+			}
+			if cs.Caller != fn && heldAtEntry(cs.Caller, d+1) {
+				continue
+			}
+			return false
+		}
+		return true
+	}
+	isGoBody := func(fn *ssa.Function) bool {
+		for _, cs := range p.callers[fn] {
+			if _, isGo := cs.Instr.(*ssa.Go); isGo {
+				return true
+			}
+		}
+		return false
+	}
+	// waitsBeforeWrite: in every function that rewrites the fields, a call that reaches
+	// (*sync.WaitGroup).Wait can precede the rewrite (the old goroutines are joined first).
+	reachesWait := map[*ssa.Function]bool{}
+	for _, fn := range p.SrcFuncs {
+		for _, call := range calls(fn) {
+			if callee := staticCallee(call); callee != nil && qualFn(callee) == "(*sync.WaitGroup).Wait" {
+				reachesWait[fn] = true
+			}
+		}
+	}
+	for changed := true; changed; {
+		changed = false
+		for _, fn := range p.SrcFuncs {
+			if reachesWait[fn] {
+				continue
+			}
+			for _, call := range calls(fn) {
+				if _, isGo := call.(*ssa.Go); isGo {
+					continue
+				}
+				if callee := staticCallee(call); callee != nil && reachesWait[callee] {
+					reachesWait[fn] = true
+					changed = true
+				}
+			}
+		}
+	}
+	waitsBeforeWrite := true
+	for _, a := range acc {
+		if !a.Write || isFresh(a.Base) {
+			continue
+		}
+		pre := false
+		for _, call := range calls(a.Fn) {
+			callee := staticCallee(call)
+			if callee == nil || !reachesWait[callee] {
+				continue
+			}
+			if call.Block() == a.Instr.Block() && instrIndex(call) < instrIndex(a.Instr) || call.Block() != a.Instr.Block() && reachAvoiding([]*ssa.BasicBlock{call.Block()}, nil, nil)[a.Instr.Block()] {
+				pre = true
+			}
+		}
+		if !pre {
+			waitsBeforeWrite = false
+		}
+	}
 	counts := map[string]int{}
 	for _, a := range acc {
 		if isFresh(a.Base) {
@@ -157,6 +246,49 @@ func runPoolFields(c *Ctx, prop, rule string) {
 				held = true
 			}
 		}
+		why := ""
+		if !held && !a.Write && heldAtEntry(a.Fn, 0) {
+			// (2) every in-repository call chain into this function starts on a pool no one else can see yet
+			// or passes through the writers' critical section; for goroutine bodies the go statement
+			// orders the rewrite before the reads and the writers wait for the goroutines (wg.Wait)
+			// before the next rewrite
+			if isGoBody(a.Fn) && !waitsBeforeWrite {
+				why = "goroutine reads are not ordered before the next rewrite (no WaitGroup.Wait before it)"
+			} else {
+				held, why = true, "entered only under the writers' lock or on an unshared pool"
+			}
+		}
+		if !held && !a.Write {
+			// (3) gate: the access is reachable only across the `running != 0` edge of an atomic load of the
+			// pool's running flag, inside the closeMu critical section that the stopper must enter before
+			// the fields can be rewritten
+			gate := guardedBy(a.Fn, a.Instr.Block(), func(f condFact) bool {
+				op, l, r, ok := normCmp(f)
+				if !ok || op != "!=" {
+					return false
+				}
+				isRunningLoad := func(v ssa.Value) bool {
+					call, ok := v.(*ssa.Call)
+					if !ok || !callsMethod(call, "sync/atomic.LoadInt32") {
+						return false
+					}
+					_, fld, ok := fieldAddrOf(call.Call.Args[0])
+					return ok && fld != nil && fld.Name() == "running"
+				}
+				k1, c1 := constInt(r)
+				k2, c2 := constInt(l)
+				return (isRunningLoad(l) && c1 && k1 == 0) || (isRunningLoad(r) && c2 && k2 == 0)
+			})
+			underClose := false
+			for h := range st {
+				if h.Class == "WorkerPool.closeMu" {
+					underClose = true
+				}
+			}
+			if gate && underClose {
+				held, why = true, "behind the running gate inside closeMu"
+			}
+		}
 		rw := "r"
 		if a.Write {
 			rw = "w"
@@ -165,9 +297,15 @@ func runPoolFields(c *Ctx, prop, rule string) {
 		counts[base]++
 		key := fmt.Sprintf("%s#%d", base, counts[base])
 		if held && len(writerLocks) > 0 {
-			c.ok(prop, rule, key, p.instrPos(a.Instr), "under the writers' lock")
+			if why == "" {
+				why = "under the writers' lock"
+			}
+			c.ok(prop, rule, key, p.instrPos(a.Instr), why)
 		} else {
-			c.bad(prop, rule, key, p.instrPos(a.Instr), fmt.Sprintf("WorkerPool.%s is rewritten by Resize under %s but accessed here without that lock: a data race with a concurrent Resize", a.Field, writerLocks.String()))
+			if why != "" {
+				why = " (" + why + ")"
+			}
+			c.bad(prop, rule, key, p.instrPos(a.Instr), fmt.Sprintf("WorkerPool.%s is rewritten by Resize under %s but accessed here without that lock: a data race with a concurrent Resize%s", a.Field, writerLocks.String(), why))
 		}
 	}
 }
